@@ -8,7 +8,7 @@ CONSTANTS
   PMacro <- MacLit
   PLen = 3
   SAlpha <- StrLit
-  SLen = 2
+  SLen = 3
   CfgSel = "all"
   Kind = "match"
 INVARIANT Emit
